@@ -99,16 +99,21 @@ class Lifter(ast.NodeTransformer):
     def visit_SetComp(self, node):
         self.generic_visit(node)
         if not self.symdict:
-            return node
+            # {e for ...} behaves like set([e for ...]): a real set unless an element is symbolic
+            return ast.copy_location(ast.Call(
+                func=_rt_attr("m_set"),
+                args=[ast.ListComp(elt=node.elt, generators=node.generators)], keywords=[]), node)
         return ast.copy_location(ast.Call(
             func=ast.Attribute(value=_rt_attr("DictMode"), attr="mkset", ctx=ast.Load()),
             args=[ast.ListComp(elt=node.elt, generators=node.generators)], keywords=[]), node)
 
     def visit_DictComp(self, node):
         self.generic_visit(node)
-        if not self.symdict:
-            return node
         pair = ast.Tuple(elts=[node.key, node.value], ctx=ast.Load())
+        if not self.symdict:
+            return ast.copy_location(ast.Call(
+                func=_rt_attr("m_dict"),
+                args=[ast.ListComp(elt=pair, generators=node.generators)], keywords=[]), node)
         return ast.copy_location(ast.Call(
             func=ast.Attribute(value=_rt_attr("DictMode"), attr="dict_", ctx=ast.Load()),
             args=[ast.ListComp(elt=pair, generators=node.generators)], keywords=[]), node)
